@@ -1,5 +1,7 @@
 import DigModel.Proofs.DotTextProofs
+import DigModel.Proofs.DotParseProofs
 import DigModel.Dot
+import DigModel.DotOut
 /-
   C19 — Visualize is a faithful, well-formed picture of the container (structure level).
 
@@ -16,8 +18,15 @@ import DigModel.Dot
     order — and the cluster of constructor `n` carries `n`'s ID, one parameter entry per declared *single*
     dependency (type, name, optional flag preserved: a dashed edge iff optional) and one result node per declared
     result (parameter/result objects flattened, As expanded), every cluster alive and uncoloured.
-  The emitted text (syntax, labels), value-group nodes and the whole structure including pruning are compared with
-  the real Visualize output on every explored program by the K-dot correspondence.
+  * **the text** (`DotSyntax.lean`: a lexer and a parser for the DOT language as far as dig uses it; `DotRender.lean`:
+    the document `visualizeGraph` writes, item by item; `DotOut.lean`: the `String()` methods):
+    `C19_text_lexes_into_its_tokens`, `C19_text_is_valid_dot` — for every picture, every type, name and group text and
+    every quoting function that closes its strings, the text lexes (identifiers separated, quoted and HTML strings
+    closed exactly where the writer closed them) and parses into exactly the statements the writer meant —,
+    `C19_model_text_is_valid_dot` (for the model's own text, `strconv.Quote` on printable ASCII),
+    `C19_one_subgraph_per_drawn_constructor`, `C19_edge_dashed_iff_optional`, `C19_group_node_links_each_member`.
+  Value-group nodes and the whole structure including pruning are compared with the real Visualize output on every
+  explored program by the K-dot correspondence; the text byte for byte by K-dottext.
 -/
 namespace Dig.C19
 
@@ -250,7 +259,139 @@ example : String.ofList (Dig.DotText.resultAttr "<-chan int".toList "a<b".toList
     "label=<&lt;-chan int<BR /><FONT POINT-SIZE=\"10\">Name: a&lt;b</FONT>>" := by decide
 example : Dig.DotText.scan 1 [] "<-chan int>".toList = none := by decide     -- the unescaped text never closes
 
+
+/-! ### the text -/
+
+open Dig.DotRender Dig.DotSyntax in
+/-- the text lexes into exactly the tokens it was written from: no identifier runs into the next, every quoted string
+    and every HTML label ends where the writer ended it -/
+theorem C19_text_lexes_into_its_tokens (q : List Char → List Char) (hq : ∀ s, QClosed (q s)) (g : RGraph) :
+    lexDot (render q g) = some (toks (graphItems q g)) := lex_render q hq g
+
+open Dig.DotRender Dig.DotSyntax in
+/-- **Visualize emits syntactically valid DOT**, and the statements are the ones the writer meant (`graphAst`): the two
+    settings, one diamond node per value group with an edge to each member, one `subgraph cluster_i` per constructor
+    holding its label, its own node, its colour when it failed and one labelled node per result, one edge per parameter
+    (with `style=dashed` exactly when optional) and per value-group parameter, one coloured node per failed result -/
+theorem C19_text_is_valid_dot (q : List Char → List Char) (hq : ∀ s, QClosed (q s)) (g : RGraph) :
+    (lexDot (render q g)).bind parseDot = some (graphAst q g) := by
+  rw [lex_render q hq g]
+  exact parse_render q g
+
+open Dig.DotRender Dig.DotSyntax in
+/-- the same for the text the model writes for a picture `g` of Dot.lean (names of types and constructors given) -/
+theorem C19_model_text_is_valid_dot (n : DotNames) (g : DGraph) :
+    (lexDot (dotText n g).toList).bind parseDot = some (graphAst goQuote (toRGraph n g)) := by
+  unfold dotText
+  rw [String.toList_ofList]
+  exact C19_text_is_valid_dot goQuote goQuote_closed _
+
+open Dig.DotRender Dig.DotSyntax in
+def isSubgraph : Stmt → Bool
+  | .subgraph _ _ => true
+  | _ => false
+
+open Dig.DotRender Dig.DotSyntax in
+private theorem count_ctorsAst (q : List Char → List Char) : ∀ (cs : List RCtor) (i : Nat),
+    ((ctorsAst q i cs).filter isSubgraph).length = cs.length
+  | [], _ => rfl
+  | c :: rest, i => by
+    simp only [ctorsAst, ctorAst, List.filter_append, List.length_append, List.filter_cons, isSubgraph, if_true, List.length_cons,
+      count_ctorsAst q rest (i+1)]
+    have h1 : ∀ (l : List RParam), ((l.map (paramAst q i)).filter isSubgraph).length = 0 := by
+      intro l; induction l with
+      | nil => rfl
+      | cons p r ih => simp [paramAst, isSubgraph]
+    have h2 : ∀ (l : List (List Char)), ((l.map (gparamAst q i)).filter isSubgraph).length = 0 := by
+      intro l; induction l with
+      | nil => rfl
+      | cons p r ih => simp [gparamAst, isSubgraph]
+    rw [h1, h2]; omega
+
+open Dig.DotRender Dig.DotSyntax in
+/-- exactly one `subgraph` statement per constructor of the picture -/
+theorem C19_one_subgraph_per_drawn_constructor (q : List Char → List Char) (g : RGraph) :
+    ((graphAst q g).filter isSubgraph).length = g.ctors.length := by
+  unfold graphAst
+  simp only [List.filter_append, List.length_append, count_ctorsAst]
+  have h1 : ∀ (l : List RGroup), ((l.flatMap (groupAst q)).filter isSubgraph).length = 0 := by
+    intro l; induction l with
+    | nil => rfl
+    | cons x r ih =>
+      rw [List.flatMap_cons, List.filter_append, List.length_append, ih]
+      simp [groupAst, isSubgraph]
+  have h2 : ∀ (c : String) (l : List (List Char)), ((l.map (failedAst q c)).filter isSubgraph).length = 0 := by
+    intro c l; induction l with
+    | nil => rfl
+    | cons x r ih => simp [failedAst, isSubgraph]
+  rw [h1, h2, h2]
+  simp [isSubgraph]
+
+private theorem indexed_snd {α : Type} : ∀ (l : List α) (i : Nat), (indexed i l).map (·.2) = l
+  | [], _ => rfl
+  | x :: rest, i => by simp [indexed, indexed_snd rest (i + 1)]
+
+open Dig.DotRender Dig.DotSyntax in
+/-- **exactly one cluster per accepted constructor**: the text `Visualize` writes for a container (no error given) parses
+    into as many `subgraph` statements as the scopes' lists of accepted constructors have entries — root first, then
+    each child scope — whatever the names are -/
+theorem C19_text_has_one_cluster_per_accepted_constructor (env : TyEnv) (ids : Bool) (st : St) (n : DotNames) :
+    (lexDot (dotText n (visualize env ids st none)).toList).bind parseDot =
+      some (graphAst goQuote (toRGraph n (visualize env ids st none))) ∧
+    ((graphAst goQuote (toRGraph n (visualize env ids st none))).filter isSubgraph).length =
+      (preorderNodes st st.scopes.length 0).length := by
+  refine ⟨C19_model_text_is_valid_dot n _, ?_⟩
+  rw [C19_one_subgraph_per_drawn_constructor]
+  have hview := C19_one_cluster_per_constructor env ids st
+  generalize visualize env ids st none = g at hview
+  have halive : ∀ c ∈ g.ctors, c.alive = true := by
+    intro c hc
+    have : ctorView c ∈ (preorderNodes st st.scopes.length 0).map (clusterOf ids st) := by
+      rw [← hview]; exact List.mem_map_of_mem hc
+    obtain ⟨m, _, hm⟩ := List.mem_map.mp this
+    have h4 : (ctorView c).2.2.2.1 = (clusterOf ids st m).2.2.2.1 := by rw [hm]
+    exact h4
+  have hlen : g.ctors.length = (preorderNodes st st.scopes.length 0).length := by
+    have := congrArg List.length hview
+    simpa using this
+  unfold toRGraph
+  simp only [List.length_map]
+  have hf : (indexed 0 g.ctors).filter (fun ic => ic.2.alive) = indexed 0 g.ctors := by
+    apply List.filter_eq_self.mpr
+    intro ic hic
+    have : ic.2 ∈ g.ctors := by
+      have := List.mem_map_of_mem (f := fun (p : Nat × DCtor) => p.2) hic
+      rwa [indexed_snd] at this
+    exact halive ic.2 this
+  rw [hf, ← hlen]
+  have := congrArg List.length (indexed_snd g.ctors 0)
+  simpa using this
+
+open Dig.DotRender Dig.DotSyntax in
+/-- the edge of a parameter carries `style=dashed` exactly when the parameter is optional -/
+theorem C19_edge_dashed_iff_optional (q : List Char → List Char) (i : Nat) (p : RParam) :
+    paramAst q i p = .edge (ctorTok i) (.quoted (q p.str))
+      (if p.optional then [A "ltail" (clusterTok i), A "style" (.bare "dashed".toList)] else [A "ltail" (clusterTok i)]) := by
+  unfold paramAst
+  cases p.optional <;> rfl
+
+open Dig.DotRender Dig.DotSyntax in
+/-- a value group is one node followed by one edge to each of its members -/
+theorem C19_group_node_links_each_member (q : List Char → List Char) (g : RGroup) :
+    (groupAst q g).tail = g.results.map (fun r => Stmt.edge (.quoted (q g.str)) (.quoted (q r)) []) := rfl
+
+-- non-vacuity (a *test*, run by the evaluator at build time): a small picture is written, read back and parsed
+#guard ((Dig.DotSyntax.lexDot (dotText { types := [(10, "*pool.T0")], ctors := [("f", "p")] }
+    { ctors := [{ id := 1, results := [{ ty := 10, name := "a\"b", group := "" }] }] }).toList).bind Dig.DotSyntax.parseDot).isSome
+
 #print axioms C19_result_label_is_one_html_string
+#print axioms C19_text_lexes_into_its_tokens
+#print axioms C19_text_is_valid_dot
+#print axioms C19_model_text_is_valid_dot
+#print axioms C19_one_subgraph_per_drawn_constructor
+#print axioms C19_text_has_one_cluster_per_accepted_constructor
+#print axioms C19_edge_dashed_iff_optional
+#print axioms C19_group_node_links_each_member
 #print axioms C19_group_label_is_one_html_string
 #print axioms C19_label_text_roundtrip
 #print axioms C19_can
